@@ -144,6 +144,9 @@ func runC09(c *an.Ctx) {
 	c.Assumption("coordinate.Config is not modified after NewClient and has Dimensionality >= 1 and AdjustmentWindowSize >= 1")
 	c.Assumption("go-msgpack (*Decoder).Decode converts decode panics into errors; memberlist hands delegates non-nil *Node values")
 	c.Assumption("reachable set (" + cg.Kind + "): " + fmt.Sprint(len(names)) + " functions")
+	if c.P.Full {
+		c09Thorough(c, fns, obs)
+	}
 }
 
 func sameKind(a, b ssa.Instruction) bool {
